@@ -27,6 +27,9 @@ type c12Cfg struct {
 	NameLen  int    `json:"name_len"`
 	MetaLen  int    `json:"meta_len"`
 	Port     int    `json:"port"`
+	// encryption roll-out stage: the receiver already has the keyring but still accepts and sends
+	// cleartext (both verification flags off), the sender has no key yet
+	Rollout bool `json:"encryption_rollout_stage,omitempty"`
 }
 
 // mkPayload builds a self-describing payload: [id u32][len u32][body][sha256[:8]] or shorter forms for tiny sizes.
@@ -74,8 +77,17 @@ func runC12(run *Run, seed int64, cfg c12Cfg, sizes []int, rng *rand.Rand) (out 
 	nameA := strings.Repeat("A", cfg.NameLen)
 	nameB := strings.Repeat("B", cfg.NameLen)
 	meta := func(tag byte, n int) []byte { return bytes.Repeat([]byte{tag}, n) }
-	mut := func(newTime bool) func(cf *memberlist.Config) {
+	mut := func(newTime bool, sender bool) func(cf *memberlist.Config) {
 		return func(cf *memberlist.Config) {
+			if cfg.Rollout {
+				defer func() {
+					if sender {
+						cf.Keyring = nil
+					} else {
+						cf.GossipVerifyIncoming, cf.GossipVerifyOutgoing = false, false
+					}
+				}()
+			}
 			cf.ProtocolVersion = uint8(cfg.PV)
 			cf.EnableCompression = cfg.Compress
 			cf.Label = cfg.Label
@@ -88,12 +100,12 @@ func runC12(run *Run, seed int64, cfg c12Cfg, sizes []int, rng *rand.Rand) (out 
 			}
 		}
 	}
-	A, err := c.Add(NodeSpec{Name: nameA, Port: cfg.Port, Meta: meta('a', cfg.MetaLen), Mutate: mut(cfg.TimeFmtA), WithPing: true})
+	A, err := c.Add(NodeSpec{Name: nameA, Port: cfg.Port, Meta: meta('a', cfg.MetaLen), Mutate: mut(cfg.TimeFmtA, true), WithPing: true})
 	if err != nil {
 		fail("harness/create", "%v", err)
 		return
 	}
-	B, err := c.Add(NodeSpec{Name: nameB, Port: cfg.Port, Meta: meta('b', cfg.MetaLen), Mutate: mut(cfg.TimeFmtB), WithPing: true})
+	B, err := c.Add(NodeSpec{Name: nameB, Port: cfg.Port, Meta: meta('b', cfg.MetaLen), Mutate: mut(cfg.TimeFmtB, false), WithPing: true})
 	if err != nil {
 		fail("harness/create", "%v", err)
 		return
@@ -345,6 +357,9 @@ func TestC12(t *testing.T) {
 			}
 		}
 	}
+	for j := 0; j < 6; j++ {
+		cfgs = append(cfgs, c12Cfg{PV: []int{5, 1, 2}[j%3], KeyLen: 16, Compress: j%2 == 1, Label: labels[j%2], TimeFmtA: j%2 == 0, NameLen: []int{8, 255}[j%2], MetaLen: 7, Port: 7946, Rollout: true})
+	}
 	// quick: a covering subset (every value of every dimension, pairwise-ish by stride); thorough: all 120
 	step := run.Pick(3, 1)
 	for rep := 0; rep < run.Pick(1, 12); rep++ {
@@ -368,7 +383,7 @@ func TestC12(t *testing.T) {
 			if err != nil {
 				res = append(res, &c01Result{"C12/bubble", err.Error()})
 			}
-			run.Cell("cfg", fmt.Sprintf("pv%d", cfg.PV), fmt.Sprintf("key%d", cfg.KeyLen), fmt.Sprintf("comp=%v", cfg.Compress), fmt.Sprintf("label=%d", len(cfg.Label)))
+			run.Cell("cfg", fmt.Sprintf("pv%d", cfg.PV), fmt.Sprintf("key%d", cfg.KeyLen), fmt.Sprintf("comp=%v", cfg.Compress), fmt.Sprintf("label=%d", len(cfg.Label)), fmt.Sprintf("rollout=%v", cfg.Rollout))
 			for _, r := range res {
 				w := cfg
 				if len(w.Label) > 10 {
@@ -380,6 +395,19 @@ func TestC12(t *testing.T) {
 				run.Sample(cfg)
 			}
 		}
+	}
+	for i := 0; i < run.Pick(3, 60); i++ {
+		id := fmt.Sprintf("real-burst/%d", i)
+		if !run.Mine(i) || !run.Want(id) {
+			continue
+		}
+		run.Journal(id, "")
+		for _, r := range runC12RealBurst(run, i, 100+50*(i%3)) {
+			run.Violation(id, r.Key, r.What, nil)
+		}
+	}
+	if !run.Replaying() {
+		run.Require("real-burst|n=100")
 	}
 	run.Complete()
 	if run.Violations() > 0 {
